@@ -118,23 +118,24 @@ class Opt(Ty):
     def sort(self):
         k = ('opt', self.inner)
         if k not in _sort_cache:
-            d = z3.Datatype(f'Opt_{self.inner.name()}')
-            d.declare('none')
-            d.declare('some', ('val', self.inner.sort()))
+            nm = self.inner.name()
+            d = z3.Datatype(f'Opt_{nm}')
+            d.declare(f'none_{nm}')
+            d.declare(f'some_{nm}', (f'val_{nm}', self.inner.sort()))
             _sort_cache[k] = d.create()
         return _sort_cache[k]
 
     def none(self):
-        return self.sort().none
+        return getattr(self.sort(), f'none_{self.inner.name()}')
 
     def some(self, z):
-        return self.sort().some(z)
+        return getattr(self.sort(), f'some_{self.inner.name()}')(z)
 
     def is_none(self, z):
-        return self.sort().is_none(z)
+        return getattr(self.sort(), f'is_none_{self.inner.name()}')(z)
 
     def val(self, z):
-        return self.sort().val(z)
+        return getattr(self.sort(), f'val_{self.inner.name()}')(z)
 
 
 class Tup(Ty):
@@ -151,15 +152,15 @@ class Tup(Ty):
         k = ('tup', self.items)
         if k not in _sort_cache:
             d = z3.Datatype(self.name())
-            d.declare('mk', *[(f'f{i}', t.sort()) for i, t in enumerate(self.items)])
+            d.declare(f'mk_{self.name()}', *[(f'{self.name()}_f{i}', t.sort()) for i, t in enumerate(self.items)])
             _sort_cache[k] = d.create()
         return _sort_cache[k]
 
     def mk(self, *zs):
-        return self.sort().mk(*zs)
+        return getattr(self.sort(), f'mk_{self.name()}')(*zs)
 
     def proj(self, z, i):
-        return getattr(self.sort(), f'f{i}')(z)
+        return getattr(self.sort(), f'{self.name()}_f{i}')(z)
 
 
 class Cls:
